@@ -1190,8 +1190,8 @@ def run_jobs(ctx, jobs, chunk, workers=6):
 def run(ctx):
     ctx.prove(COQ_FILES, allowed_axioms=(), trusted_base=TRUSTED)
     fams = {f.name: f for f in FAMILIES}
-    stats = run_jobs(ctx, [(fams["paxos"], ctx.n(200, 3000)), (fams["lock"], ctx.n(60, 400)),
-                           (fams["multi"], ctx.n(100, 1500)), (fams["election"], ctx.n(30, 400))], ctx.n(34, 100), workers=8)
+    stats = run_jobs(ctx, [(fams["paxos"], ctx.n(200, 6000)), (fams["lock"], ctx.n(60, 600)),
+                           (fams["multi"], ctx.n(100, 3000)), (fams["election"], ctx.n(30, 800))], ctx.n(34, 100), workers=8)
     merge_stats(ctx, stats, "paxos: random / lossy / partitioned / 'ladder' / 'classic' schedules (per-message delays, loss, partitions, retry jitter) over 3-5 nodes "
                 "and 1-4 proposals, non-trivial = competing ballots (nack/retry or >1 proposal); lock: 3-40 API calls and events over 1-3 locks, "
                 "non-trivial = some waiter queued; multi: Multi-/Flexible Paxos with all intersecting (q1,q2), stable/takeover/chaos modes, "
